@@ -55,6 +55,7 @@ class Report:
         self.leaf = False
         self.leaf_types = []   # (header line, [body lines]) of  "'struct S at ...' changed:" blocks
         self.other = []
+        self.notes = []        # "SONAME changed from 'a' to 'b'" / "architecture changed from ..." detail lines
 
     def net_total(self):
         return sum(v[0] for v in self.summary.values())
@@ -168,6 +169,11 @@ def parse(text):
             if l.startswith("'") and r.leaf:
                 # "'struct T at v1.c:2:1' changed:" variants handled above; anything else goes to other
                 pass
+            if re.match(r"^(SONAME|architecture) changed from '.*' to '.*'$", l):
+                r.notes.append(l)
+                cur = None
+                curentry = None
+                continue
             r.other.append(l)
             cur = None
             curentry = None
